@@ -66,20 +66,28 @@ Proof. exact diff_ok_sound. Qed.
 Print Assumptions C07_checked_diff_transforms.
 
 (* get_changed_files names exactly the files with a node map; to_path is the
-   string-prefix rewrite, equal to from_path when no rename pair prefixes it and,
-   for one rename pair, different from it exactly when the pair prefixes it *)
+   component-wise rewrite by the rename pairs (the code as of fix 7b0370f) = the
+   path the file really ends up at after the renames (final_path, the FS model's
+   own notion): unconditionally, for every list of renames *)
+Theorem C07_announced_name_is_final_path : forall rs p,
+  calc_to_path p rs = final_path rs p.
+Proof. exact calc_to_path_final. Qed.
+Print Assumptions C07_announced_name_is_final_path.
+
 Theorem C07_changed_files_match : forall changes renames,
   map (fun e => fst (fst e)) (get_changed_files changes renames) = map fst changes /\
   (forall p to m, In (Some p, to, m) (get_changed_files changes renames) ->
-      to = Some (calc_to_path p renames) /\ In (Some p, m) changes) /\
+      to = Some (final_path renames p) /\ In (Some p, m) changes) /\
   (forall p m, In (Some p, m) changes ->
-      (forall f t, In (f, t) renames -> starts_with p f = false) ->
+      (forall f t, In (f, t) renames -> is_prefix f p = false) ->
       In (Some p, Some p, m) (get_changed_files changes renames)).
 Proof. exact changed_files_match. Qed.
 Print Assumptions C07_changed_files_match.
 
+(* to_path differs from from_path exactly when the (single) rename pair is a
+   component-wise prefix of it *)
 Theorem C07_to_path_single_rename : forall p f t,
-  calc_to_path p [(f, t)] <> p <-> (starts_with p f = true /\ f <> t).
+  calc_to_path p [(f, t)] <> p <-> (is_prefix f p = true /\ f <> t).
 Proof. exact calc_to_path_single. Qed.
 Print Assumptions C07_to_path_single_rename.
 
@@ -111,21 +119,35 @@ Theorem C07_apply_effect_untouched : forall changed renames s p c,
 Proof. exact apply_effect_untouched. Qed.
 Print Assumptions C07_apply_effect_untouched.
 
-(* the announced to_path is where the file really ends up, provided the string
-   prefix test agrees with the component-wise one ... *)
-Theorem C07_announced_name_is_final_path : forall p f t,
-  (starts_with (render p) (render f) = true -> is_prefix f p = true) ->
-  calc_to_path (render p) [(render f, render t)] = render (final_path [(f, t)] p).
-Proof. exact to_path_agrees_single. Qed.
-Print Assumptions C07_announced_name_is_final_path.
+(* Refactoring.apply with a path-less buffer among the changed files is refused
+   before anything is written (fix f514566); otherwise it is apply_fs *)
+Theorem C07_apply_pathless_refused : forall changed renames s c,
+  In (None, c) changed -> apply_refactoring changed renames s = None.
+Proof. exact apply_pathless_refused. Qed.
+Print Assumptions C07_apply_pathless_refused.
 
-(* ... and without the proviso the clause is refuted by the faithful model:
-   /pkg2/a under the rename /pkg -> /new is announced as /new2/a (finding
-   C07-to-path-string-prefix) *)
-Theorem C07_announced_name_refuted : exists p f t,
-  calc_to_path (render p) [(render f, render t)] <> render (final_path [(f, t)] p).
-Proof. exact to_path_refuted. Qed.
-Print Assumptions C07_announced_name_refuted.
+Theorem C07_apply_refactoring_effect : forall changed renames s,
+  (forall c, ~ In (None, c) changed) ->
+  exists ch, map (fun e => (Some (fst e), snd e)) ch = changed /\
+             apply_refactoring changed renames s = Some (apply_fs ch renames s).
+Proof. exact apply_refactoring_effect. Qed.
+Print Assumptions C07_apply_refactoring_effect.
+
+(* The rule used before fix 7b0370f (calc_to_path_str, a string prefix rewrite)
+   announced the final path only when the string prefix test agreed with the
+   component-wise one ... *)
+Theorem C07_old_string_prefix_rule_agrees : forall p f t,
+  (starts_with (render p) (render f) = true -> is_prefix f p = true) ->
+  calc_to_path_str (render p) [(render f, render t)] = render (final_path [(f, t)] p).
+Proof. exact old_rule_agrees_single. Qed.
+Print Assumptions C07_old_string_prefix_rule_agrees.
+
+(* ... and was wrong without it: /pkg2/a under the rename /pkg -> /new came out
+   as /new2/a (finding C07-to-path-string-prefix, fixed) *)
+Theorem C07_old_string_prefix_rule_refuted : exists p f t,
+  calc_to_path_str (render p) [(render f, render t)] <> render (final_path [(f, t)] p).
+Proof. exact old_rule_refuted. Qed.
+Print Assumptions C07_old_string_prefix_rule_refuted.
 
 (* non-vacuity: concrete runs of the model *)
 Example C07_example_refactor :
@@ -152,3 +174,9 @@ Example C07_example_apply :
   apply_fs [([R; main], 9%N)] [([R; pkg], [R; new])] [([R; pkg; ini], 1%N); ([R; main], 2%N)]
   = [([R; new; ini], 1%N); ([R; main], 9%N)].
 Proof. vm_compute. reflexivity. Qed.
+
+
+Example C07_example_pathless :
+  apply_refactoring [(Some [[82]%N; [109]%N], 9%N); (None, 8%N)] [] [([[82]%N; [109]%N], 2%N)] = None /\
+  calc_to_path [[112;107;103;50]%N; [97]%N] [([[112;107;103]%N], [[110;101;119]%N])] = [[112;107;103;50]%N; [97]%N].
+Proof. vm_compute. split; reflexivity. Qed.
